@@ -103,3 +103,434 @@ def rt_pok_receiver(req):
 
 
 RT['pok_receiver'] = rt_pok_receiver
+
+
+def rt_receiver_names(req):
+    """C04 / C13: the wrapper objects sigtools puts around a function (`emulate=True` declarations, `wrappers.decorator`)
+    take their own receiver out of the call: a parameter of the function that is called `self` (or `args`, `kwargs`, `func`,
+    `wrapped`) is passed by name exactly as the advertised signature says (remark of a round-9 sub-agent; D86, D87)"""
+    import sigtools
+    from sigtools import specifiers, wrappers
+    which = req[1] if len(req) > 1 else 'all'
+    problems = []
+    names = ('self', 'args', 'kwargs', 'func', 'wrapped', 'instance', 'owner')
+    with warnings.catch_warnings():
+        warnings.simplefilter('ignore')
+        for nm in names:
+            ns = {}
+            exec('def inner(a, b=1): return (a, b)\n'
+                 'def w(%s, *args, **kwargs): return (%s, inner(*args, **kwargs))\n'
+                 'def plainf(%s, x=5): return (%s, x)\n' % (nm, nm, nm, nm), ns) if nm not in ('args', 'kwargs') else \
+                exec('def inner(a, b=1): return (a, b)\n'
+                     'def w(%s, *rest, **opts): return (%s, inner(*rest, **opts))\n'
+                     'def plainf(%s, x=5): return (%s, x)\n' % (nm, nm, nm, nm), ns)
+            if which in ('all', 'c04'):
+                g = _try(lambda: specifiers.forwards_to_function(ns['inner'], emulate=True)(ns['w']))
+                if g[0] != 'ok':
+                    problems.append('emulate-decoration: forwards_to_function(inner, emulate=True) over def w(%s, *args, **kwargs) raised %s' % (nm, g[1]))
+                else:
+                    g = g[1]
+                    sig = _try(lambda: sigtools.signature(g))
+                    if sig[0] == 'ok' and nm in sig[1].parameters and sig[1].parameters[nm].kind.name == 'POSITIONAL_OR_KEYWORD':
+                        for kw in ({nm: 'R', 'a': 'A'}, {nm: 'R', 'a': 'A', 'b': 'B'}):
+                            got = _try(lambda: g(**kw))
+                            want = ('ok', ('R', ('A', kw.get('b', 1))))
+                            if got != want:
+                                problems.append('emulate-receiver-name: forwards_to_function(inner, emulate=True) over def w(%s, *args, **kwargs) advertises %s, the call (**%r) -> %s, expected %s' % (
+                                    nm, sig[1], kw, got, want))
+                                break
+            if which in ('all', 'c13'):
+                @wrappers.decorator
+                def deco(wrapped, /, *args, **kwargs):
+                    return ('d', wrapped(*args, **kwargs))
+
+                @wrappers.wrapper_decorator
+                def wdeco(wrapped, /, *args, **kwargs):
+                    return ('d', wrapped(*args, **kwargs))
+                for dl, d in (('wrappers.decorator', deco), ('wrappers.wrapper_decorator', wdeco)):
+                    g = _try(lambda: d(ns['plainf']))
+                    if g[0] != 'ok':
+                        problems.append('wrapper-decoration: %s over def plainf(%s, x=5) raised %s' % (dl, nm, g[1]))
+                        continue
+                    g = g[1]
+                    sig = _try(lambda: sigtools.signature(g))
+                    for kw in ({nm: 'R'}, {nm: 'R', 'x': 'X'}):
+                        got = _try(lambda: g(**kw))
+                        want = ('ok', ('d', ('R', kw.get('x', 5))))
+                        if got != want:
+                            problems.append('wrapper-receiver-name: %s over def plainf(%s, x=5) advertises %s, the call (**%r) -> %s, by hand %s' % (
+                                dl, nm, sig[1] if sig[0] == 'ok' else sig, kw, got, want))
+                            break
+    return ('ok', tuple(problems[:6]), 'receiver_names')
+
+
+RT['receiver_names'] = rt_receiver_names
+RT['receiver_names_c04'] = lambda req: rt_receiver_names(('rt:receiver_names', 'c04'))
+RT['receiver_names_c13'] = lambda req: rt_receiver_names(('rt:receiver_names', 'c13'))
+
+
+def _pdata(sig):
+    # the NAME of a star parameter is no part of what a signature accepts: merge keeps the left one
+    return tuple(('*' if p.kind.name.startswith('VAR_') else p.name, p.kind.name, 'EMPTY' if p.default is p.empty else repr(p.default),
+                  'EMPTY' if p.annotation is p.empty else repr(p.annotation)) for p in sig.parameters.values())
+
+
+def rt_laws_codeless(req):
+    """C09, second sentence, for signatures that do not come from a function with a code object: classes (their `__init__`),
+    instances with `__call__`, bound methods of them, plain `inspect.Signature` inputs — annotated, star parameters included:
+    merge(s) = merge(s, s) = merge(s, s, s) = s, a bare (*args, **kwargs) is neutral on either side, folding = n-ary"""
+    import sigtools
+    from sigtools import signatures
+
+    class Job:
+        def __init__(self, a: int, b: 'B' = 1, *extra: int, k: str = 'k', **opts: float): pass
+
+    class Inst:
+        def __call__(self, a: int, *rest: int, k: str, **opts: float): pass
+
+    def fn(a: int, b: str = 's', *rest: int, k: float = 1.0, **opts: int): pass
+
+    def bare(*args, **kwargs): pass
+    problems = []
+    with warnings.catch_warnings():
+        warnings.simplefilter('ignore')
+        cands = [('signature(class)', lambda: signatures.signature(Job)), ('sigtools.signature(class)', lambda: sigtools.signature(Job)),
+                 ('signature(instance with __call__)', lambda: signatures.signature(Inst())),
+                 ('plain inspect.Signature', lambda: inspect.signature(fn)),
+                 ('signature(function)', lambda: signatures.signature(fn))]
+        for label, mk in cands:
+            s = mk()
+            want = _pdata(s)
+            bs = signatures.signature(bare)
+            for ll, f in (('merge(s)', lambda: signatures.merge(mk())), ('merge(s, s)', lambda: signatures.merge(mk(), mk())),
+                          ('merge(s, s, s)', lambda: signatures.merge(mk(), mk(), mk())),
+                          ('merge(bare, s)', lambda: signatures.merge(bs, mk())), ('merge(s, bare)', lambda: signatures.merge(mk(), bs)),
+                          ('merge(merge(s, bare), s)', lambda: signatures.merge(signatures.merge(mk(), bs), mk()))):
+                got = _try(lambda: _pdata(f()))
+                if got != ('ok', want):
+                    problems.append('law-codeless: %s for s = %s = %s gives %s' % (ll, label, want, got))
+    return ('ok', tuple(problems[:6]), 'laws_codeless')
+
+
+RT['laws_codeless'] = rt_laws_codeless
+
+
+def rt_bind_receiver(req):
+    """C14: bind / bind_partial of a returned signature behave as inspect's: the receiver of `Signature.bind` is positional-only,
+    so a keyword argument called `self` (or `args`, `kwargs`) reaches the parameter of that name or `**kwargs`"""
+    import sigtools
+    from sigtools import signatures, modifiers
+    problems = []
+
+    class C:
+        def m(self, a, b=2): pass
+
+        @modifiers.kwoargs('b')
+        def k(self, a, b=2): pass
+
+    def kw(a, **kwargs): pass
+
+    def named(args, kwargs=1, *, self=3): pass
+    with warnings.catch_warnings():
+        warnings.simplefilter('ignore')
+        for label, obj in (('C.m', C.m), ('C.k', C.k), ('kw', kw), ('named', named)):
+            for getter in (sigtools.signature, signatures.signature, lambda o: sigtools.signature(o).evaluated(),
+                           lambda o: signatures.mask(signatures.signature(o), 0), lambda o: signatures.merge(signatures.signature(o))):
+                s = _try(lambda: getter(obj))
+                if s[0] != 'ok':
+                    continue
+                ref = inspect.Signature(list(inspect.signature(obj).parameters.values()))
+                for args, kws in (((), {'self': 1, 'a': 2}), ((), {'a': 2, 'self': 1, 'args': 5}), ((1,), {'self': 7}), ((), {'args': 1}),
+                                  ((), {'args': 1, 'kwargs': 2, 'self': 3}), ((1, 2), {})):
+                    for meth in ('bind', 'bind_partial'):
+                        want = _try(lambda: tuple(getattr(ref, meth)(*args, **kws).arguments.items()))
+                        got = _try(lambda: tuple(getattr(s[1], meth)(*args, **kws).arguments.items()))
+                        if want != got:
+                            problems.append('bind-differs: %s of the signature returned for %s %s: (*%r, **%r) -> %s, inspect.Signature -> %s' % (
+                                meth, label, s[1], args, kws, got, want))
+    return ('ok', tuple(problems[:4]), 'bind_receiver')
+
+
+RT['bind_receiver'] = rt_bind_receiver
+
+
+def rt_partial_odd(req):
+    """C19: partial objects whose bound keywords are legal but unusual identifiers (non-ASCII letters), whose bound positionals are
+    unhashable, and whose function's callee is rebound between two retrievals: the signature is the one Python enforces / the
+    one discovery gives for the function as it is NOW"""
+    import functools
+    import sigtools
+    from sigtools import signatures
+    from . import progs
+    problems = []
+    with warnings.catch_warnings():
+        warnings.simplefilter('ignore')
+        ns = {}
+        exec('def f(a, λ=1, *args, Δx=2, ß=3, **kwargs): return (a, λ, args, Δx, ß, kwargs)\n'
+             'def g(a, /, b, *args, **kwargs): return (a, b, args, kwargs)\n', ns)
+        for fl, kws in (('f', {'λ': 5}), ('f', {'Δx': 5}), ('f', {'ß': 5, 'zzz': 1}), ('g', {'Δx': 5}), ('g', {'b': 1, 'λ': 2})):
+            p = functools.partial(ns[fl], **kws)
+            for gl, getter in (('sigtools.signature', sigtools.signature), ('signatures.signature', signatures.signature)):
+                got = _try(lambda: str(getter(p)))
+                want = _try(lambda: str(inspect.signature(p)))
+                if got[0] != want[0]:
+                    problems.append('partial-unicode: %s(partial(%s, **%r)) -> %s, inspect.signature -> %s' % (gl, fl, kws, got, want))
+                    continue
+                if got[0] != 'ok':
+                    continue
+                s = getter(p)
+                for args, kw in (((), {}), ((1,), {}), ((1, 2), {}), ((1, 2, 3), {}), ((1,), {'λ': 9}), ((1,), {'b': 9}), ((1,), {'Δx': 4})):
+                    acc = _try(lambda: s.bind(*args, **kw))[0] == 'ok'
+                    runs = _try(lambda: p(*args, **kw))
+                    if acc != (runs[0] == 'ok') and (runs[0] == 'ok' or runs[1] == 'TypeError'):
+                        problems.append('partial-unicode: %s(partial(%s, **%r)) = %s %s (*%r, **%r) but the call %s' % (
+                            gl, fl, kws, s, 'accepts' if acc else 'rejects', args, kw, 'runs' if runs[0] == 'ok' else 'raises TypeError'))
+                        break
+        src = ('def callee(y, *, z=0): return (y, z)\ndef other(q, r=1): return (q, r)\n'
+               'def w(cb, extra, *args, **kwargs):\n    return cb(*args, **kwargs)\n'
+               'def wg(extra, *args, **kwargs):\n    return TARGET(*args, **kwargs)\nTARGET = callee\n')
+        mod, fname = progs.load_module(src)
+        try:
+            for label, mk in (('a list', lambda: [1, 2]), ('a dict', lambda: {'k': 1}), ('a set', lambda: {1})):
+                p = functools.partial(mod.w, mod.callee, mk())
+                got = _try(lambda: str(sigtools.signature(p)))
+                twin = _try(lambda: str(sigtools.signature(functools.partial(mod.w, mod.callee, 0))))
+                if got != twin:
+                    problems.append('partial-unhashable-bound: sigtools.signature(partial(w, callee, <%s>)) = %s, with a hashable value in its place %s' % (label, got, twin))
+            p = functools.partial(mod.wg, 0)
+            first = _try(lambda: str(sigtools.signature(p)))
+            mod.TARGET = mod.other
+            second = _try(lambda: str(sigtools.signature(p)))
+            fresh = _try(lambda: str(sigtools.signature(functools.partial(mod.wg, 0))))
+            if second != fresh:
+                problems.append('partial-stale: after the callee of the function was rebound, sigtools.signature(p) = %s (first %s) but a fresh equal partial object gives %s' % (second, first, fresh))
+        finally:
+            progs.unload(fname)
+    return ('ok', tuple(problems[:5]), 'partial_odd')
+
+
+RT['partial_odd'] = rt_partial_odd
+
+
+def rt_support_text_odd(req):
+    """C20: `func_from_sig` reproduces return annotations whose text contains brackets, `s` / `f` / `bind_callsig` handle defaults
+    and annotations that are strings containing a single bracket"""
+    from sigtools import support
+    problems = []
+    with warnings.catch_warnings():
+        warnings.simplefilter('ignore')
+        for ret in ((), (1, 2), 'f(x)', [1], {'k': (1,)}, 'a)b'):
+            ns = {}
+            def base(a, b=1, *c, d): pass
+            sig = inspect.signature(base).replace(return_annotation=ret)
+            got = _try(lambda: inspect.signature(support.func_from_sig(sig)))
+            if got[0] != 'ok' or got[1].return_annotation != ret or list(got[1].parameters) != ['a', 'b', 'c', 'd']:
+                problems.append('func_from_sig-return: func_from_sig(%s) -> %s' % (sig, got if got[0] != 'ok' else (got[1], got[1].return_annotation)))
+        for text, call, want in (("a='(', b=2", ((), {}), {'a': '(', 'b': 2}), ("a: ']', b=3", ((1,), {}), {'a': 1, 'b': 3}),
+                                 ("a='{', *args, b='}'", ((), {}), {'a': '{', 'args': (), 'b': '}'}), ("a=')', b=']'", ((5,), {}), {'a': 5, 'b': ']'})):
+            for opts in ({}, {'use_modifiers_annotate': True}):
+                sig = _try(lambda: support.s(text, **opts))
+                if sig[0] != 'ok':
+                    problems.append('bracket-in-string: s(%r, %s) raised %s' % (text, opts, sig[1]))
+                    continue
+                fn = _try(lambda: support.f(text, **opts))
+                r = _try(lambda: dict(fn[1](*call[0], **call[1]))) if fn[0] == 'ok' else fn
+                b = _try(lambda: dict(support.bind_callsig(sig[1], call[0], call[1])))
+                if r != ('ok', want) or b != ('ok', want):
+                    problems.append('bracket-in-string: f(%r, %s)(*%r) -> %s, bind_callsig -> %s, expected %s' % (text, opts, call[0], r, b, want))
+    return ('ok', tuple(problems[:5]), 'support_text_odd')
+
+
+RT['support_text_odd'] = rt_support_text_odd
+
+
+def rt_pok_forms_direct(req):
+    """C12: the start= / end= forms stacked with by-name selections, on plain functions called DIRECTLY (not as methods), and
+    the same forms over a function whose body forwards *args / **kwargs (the selection is made among the function's OWN
+    parameters): decoration succeeds, the advertised signature is the function's own with the selection applied, every call
+    is delivered where that signature binds it"""
+    from sigtools import modifiers
+    problems = []
+
+    def native(sig, f):
+        def call(*args, **kw):
+            ba = sig.bind(*args, **kw)
+            ba.apply_defaults()
+            return dict(ba.arguments)
+        return call
+    with warnings.catch_warnings():
+        warnings.simplefilter('ignore')
+        for dflts in ('a=0, b=1, c=2, d=3', 'a, b, c, d', 'a, b, c=2, d=3'):
+            stacks = (("kwoargs(start='c') over kwoargs('a')", lambda f: modifiers.kwoargs(start='c')(modifiers.kwoargs('a')(f))),
+                      ("kwoargs('a') over kwoargs(start='c')", lambda f: modifiers.kwoargs('a')(modifiers.kwoargs(start='c')(f))),
+                      ("posoargs(end='b') over kwoargs('d')", lambda f: modifiers.posoargs(end='b')(modifiers.kwoargs('d')(f))),
+                      ("posoargs(end='a') over kwoargs('c')", lambda f: modifiers.posoargs(end='a')(modifiers.kwoargs('c')(f))),
+                      ("kwoargs(start='d') over posoargs('a')", lambda f: modifiers.kwoargs(start='d')(modifiers.posoargs('a')(f))),
+                      ("kwoargs(start='c') over posoargs(end='a')", lambda f: modifiers.kwoargs(start='c')(modifiers.posoargs(end='a')(f))),
+                      ("kwoargs(start='b') over kwoargs('d')", lambda f: modifiers.kwoargs(start='b')(modifiers.kwoargs('d')(f))))
+            for sl, st in stacks:
+                ns = {}
+                exec('def f(%s): return {"a": a, "b": b, "c": c, "d": d}' % dflts, ns)
+                g = _try(lambda: st(ns['f']))
+                if g[0] != 'ok':
+                    if 'a, b, c=2' in dflts or 'a, b, c, d' == dflts:
+                        # kwoargs('a') over a function whose later positionals are required is admissible (they stay positional)
+                        pass
+                    problems.append('forms-decoration: %s over def f(%s) raised %s' % (sl, dflts, g[1]))
+                    continue
+                g = g[1]
+                sig = inspect.signature(g)
+                for args, kw in _calls(('a', 'b', 'c', 'd')):
+                    if len(args) > 3 and kw:
+                        continue
+                    want = _try(lambda: native(sig, g)(*args, **kw))
+                    if want[0] != 'ok':
+                        want = ('raised', 'TypeError')
+                    got = _try(lambda: g(*args, **kw))
+                    if got != want:
+                        problems.append('forms-direct-call: %s over def f(%s), advertised %s: call(*%r, **%r) -> %s, the advertised signature says %s' % (
+                            sl, dflts, sig, args, kw, got, want))
+                        break
+        # the decorated function forwards its stars: the selection is among its own parameters
+        from . import progs
+        mod, fname = progs.load_module('def callee(p, q=1, *, r=2): return (p, q, r)\n'
+                                       'def w(x, y, *args, **kwargs): return (x, y, callee(*args, **kwargs))\n'
+                                       'class C:\n    def m(self, x, y, *args, **kwargs): return (x, y, callee(*args, **kwargs))\n')
+        try:
+            for dl, deco in (("kwoargs(start='y')", lambda: modifiers.kwoargs(start='y')), ("kwoargs(start='x')", lambda: modifiers.kwoargs(start='x')),
+                             ("posoargs(end='x')", lambda: modifiers.posoargs(end='x')), ("posoargs(end='y')", lambda: modifiers.posoargs(end='y')),
+                             ("kwoargs('y')", lambda: modifiers.kwoargs('y')), ("autokwoargs", lambda: modifiers.autokwoargs)):
+                for tl, target in (('w', mod.w), ('C.m', mod.C.__dict__['m'])):
+                    g = _try(lambda: deco()(target))
+                    if g[0] != 'ok':
+                        problems.append('forms-over-forwarding: %s over the forwarding function %s raised %s at decoration time' % (dl, tl, g[1]))
+                        continue
+                    own = [n for n in inspect.signature(g[1]).parameters]
+                    if not {'x', 'y'} <= set(own):
+                        problems.append('forms-over-forwarding: %s over the forwarding function %s advertises %s' % (dl, tl, inspect.signature(g[1])))
+        finally:
+            progs.unload(fname)
+    return ('ok', tuple(problems[:6]), 'pok_forms_direct')
+
+
+RT['pok_forms_direct'] = rt_pok_forms_direct
+
+
+def rt_mask_odd(req):
+    """C03: mask is indifferent to how parameters are spelled and to what their defaults are: renaming the parameters of a
+    signature (to multi-letter names whose letters are names of other parameters) renames the result, and unhashable
+    defaults / annotations behave like hashable ones"""
+    from sigtools import signatures, support
+    problems = []
+    ren = {'a': 'self', 'b': 'f', 'c': 'e', 'd': 'node', 'x': 'l', 'k': 'no', 'r': 'rest', 'o': 'opts'}
+    texts = ('a, b, c', 'a, b, *, c=None', 'a, d, *, b=None', 'a, d, b=1, *r, c, **o', 'a, /, d, b, *, x=1, k', 'd, a, *r, b=2, **o', 'a, d, k, *, c')
+    with warnings.catch_warnings():
+        warnings.simplefilter('ignore')
+        for t in texts:
+            s1 = support.s(t)
+            t2 = ', '.join(''.join(ren.get(tok, tok) if tok.isidentifier() else tok for tok in _toks(part)) for part in t.split(', '))
+            s2 = support.s(t2)
+            names = [p.name for p in s1.parameters.values() if p.kind.name in ('POSITIONAL_OR_KEYWORD', 'KEYWORD_ONLY')]
+            for n in range(0, 3):
+                for r in range(0, 3):
+                    for sel in itertools.permutations(names, r):
+                        for fl in ({}, {'hide_args': True}, {'hide_kwargs': True}):
+                            a = _try(lambda: _pnames(signatures.mask(s1, n, *sel, **fl), ren))
+                            b = _try(lambda: _pnames(signatures.mask(s2, n, *[ren.get(x, x) for x in sel], **fl), {}))
+                            if a != b:
+                                problems.append('mask-renaming: mask((%s), %d, %s, %s) -> %s but on the renamed twin (%s) -> %s' % (t, n, sel, fl, a, t2, b))
+        for dl, d in (('[]', []), ('{}', {}), ('set()', set())):
+            def f(a, tags=d, *rest, opts=d, **kw): pass
+            def twin(a, tags=0, *rest, opts=0, **kw): pass
+            for n in range(0, 4):
+                for sel in ((), ('tags',), ('opts',), ('opts', 'tags')):
+                    a = _try(lambda: [(p.name, p.kind.name, p.default is not p.empty) for p in signatures.mask(signatures.signature(f), n, *sel).parameters.values()])
+                    b = _try(lambda: [(p.name, p.kind.name, p.default is not p.empty) for p in signatures.mask(signatures.signature(twin), n, *sel).parameters.values()])
+                    if a != b:
+                        problems.append('mask-unhashable-default: mask((a, tags=%s, *rest, opts=%s, **kw), %d, %s) -> %s, with hashable defaults %s' % (dl, dl, n, sel, a, b))
+    return ('ok', tuple(problems[:5]), 'mask_odd')
+
+
+def _toks(part):
+    import re
+    return re.findall(r'[A-Za-z_]+|[^A-Za-z_]+', part)
+
+
+def _pnames(sig, ren):
+    return tuple((ren.get(p.name, p.name), p.kind.name, p.default is not p.empty) for p in sig.parameters.values())
+
+
+RT['mask_odd'] = rt_mask_odd
+
+
+def rt_wrap_named_star(req):
+    """C13: a wrapper that passes one argument BY NAME to a function with `*rest` (declared wrapper_decorator(0, 'tag') /
+    decorator(0, 'tag')): every call the stack's signature accepts runs without an argument-binding TypeError"""
+    import sigtools
+    from sigtools import wrappers
+    problems = []
+    with warnings.catch_warnings():
+        warnings.simplefilter('ignore')
+        for dl, dec in (('wrapper_decorator', wrappers.wrapper_decorator),):
+            @dec(0, 'tag')
+            def label(wrapped, label_, *args, **kwargs):
+                return wrapped(*args, tag=label_, **kwargs)
+            for ft in ('first, tag, *rest', 'first, tag, *rest, k=1', 'tag, *rest', 'first, second, tag, *rest, **kw', 'first, tag'):
+                ns = {}
+                exec('def f(%s): return 1' % ft, ns)
+                g = _try(lambda: label(ns['f']))
+                if g[0] != 'ok':
+                    problems.append('wrap-named-star: %s(0, "tag") over def f(%s) raised %s' % (dl, ft, g[1]))
+                    continue
+                sig = _try(lambda: sigtools.signature(g[1]))
+                if sig[0] != 'ok':
+                    problems.append('wrap-named-star: sigtools.signature raised %s for %s(0, "tag") over def f(%s)' % (sig[1], dl, ft))
+                    continue
+                for n in range(0, 6):
+                    for kw in ({}, {'k': 1}, {'first': 0}, {'second': 1}):
+                        if _try(lambda: sig[1].bind(*range(n), **kw))[0] != 'ok':
+                            continue
+                        r = _try(lambda: g[1](*range(n), **kw))
+                        if r == ('raised', 'TypeError'):
+                            problems.append('wrap-named-star: %s(0, "tag") over def f(%s) advertises %s which accepts %d positionals + %r, the call raises TypeError' % (
+                                dl, ft, sig[1], n, kw))
+    return ('ok', tuple(problems[:5]), 'wrap_named_star')
+
+
+RT['wrap_named_star'] = rt_wrap_named_star
+
+
+def rt_depths_key(req):
+    """C15 / C08: the reserved key '+depths' of the provenance map is not a parameter: naming it (or any other string that is
+    no parameter) as a named argument of mask / forwards leaves a well-formed result — every parameter has its entry, the
+    depth map is there"""
+    from sigtools import signatures
+    problems = []
+
+    def inner(a, b=1, *args, c=2, **kwargs): pass
+
+    def outer(x, *args, **kwargs): pass
+    with warnings.catch_warnings():
+        warnings.simplefilter('ignore')
+        for nm in ('+depths', 'zz', '', 'a b'):
+            for label, fn in (('mask(inner, 0, %r)' % nm, lambda: signatures.mask(signatures.signature(inner), 0, nm)),
+                              ('forwards(outer, inner, 0, %r)' % nm, lambda: signatures.forwards(signatures.signature(outer), signatures.signature(inner), 0, nm)),
+                              ('mask(mask(inner, 0, %r), 1)' % nm, lambda: signatures.mask(signatures.mask(signatures.signature(inner), 0, nm), 1)),
+                              ('embed(outer, mask(inner, 0, %r))' % nm, lambda: signatures.embed(signatures.signature(outer), signatures.mask(signatures.signature(inner), 0, nm)))):
+                r = _try(fn)
+                if r[0] != 'ok':
+                    if r[1] != 'ValueError':
+                        problems.append('reserved-key: %s raised %s' % (label, r[1]))
+                    continue
+                src = getattr(r[1], 'sources', None)
+                if not isinstance(src, dict) or not isinstance(src.get('+depths'), dict) or not src['+depths']:
+                    problems.append('reserved-key: %s = %s has no depth map (sources = %r)' % (label, r[1], src))
+                    continue
+                missing = [n for n in r[1].parameters if not src.get(n)]
+                nodepth = [f for n in r[1].parameters for f in src.get(n, ()) if f not in src['+depths']]
+                if missing or nodepth:
+                    problems.append('reserved-key: %s = %s: parameters without sources %s, listed callables without depth %s' % (label, r[1], missing, nodepth))
+    return ('ok', tuple(problems[:5]), 'depths_key')
+
+
+RT['depths_key'] = rt_depths_key
